@@ -69,6 +69,27 @@ def export(rs):
     return nodes
 
 
+def rank(nodes):
+    """longest-path rank over child edges (an acyclicity witness that Lean re-checks); [] when there is a cycle"""
+    n = len(nodes)
+    indeg = [0] * n
+    for nd in nodes:
+        for c in nd["chi"]:
+            indeg[c] += 1
+    rk = [0] * n
+    todo = [i for i in range(n) if indeg[i] == 0]
+    seen = 0
+    while todo:
+        x = todo.pop()
+        seen += 1
+        for c in nodes[x]["chi"]:
+            rk[c] = max(rk[c], rk[x] + 1)
+            indeg[c] -= 1
+            if indeg[c] == 0:
+                todo.append(c)
+    return rk if seen == n else []
+
+
 def to_lean(nodes):
     return [{"uid": n["uid"], "sid": n["sid"], "dict": n["dict"], "anc": n["anc"], "chi": n["chi"],
              "calc": n["calc"], "live": n["live"]} for n in nodes]
